@@ -346,6 +346,18 @@ func checkC07(p *Prog, r *Report) {
 		(strings.HasSuffix(samt.Name, ".SpendableCoins") || strings.HasSuffix(samt.Name, ".SpendableCoin"))
 	r.Check(okAmt, kp("ORIGIN", FuncName(bfn)+"#amount=spendable"), "the amount is a spendable-balance read of the sender itself (table of reads bank's SendCoins will accept: SpendableCoins/SpendableCoin)", p.Pos(send.Pos()),
 		"amount ≡ SpendableCoins(ctx, sender)", fmt.Sprintf("amount = %v — a total-balance read makes bank reject the whole send whenever part of the balance is locked (vesting account at the burn address), leaving every spendable coin there", samt))
+	// the coins read are the coins sent: nothing writes into the slice between the spendable-balance read and the bank calls (a
+	// filter that reuses its backing array — coins[:0] + append — or an in-place sort rewrites what the unchanged send then moves)
+	if amtV, ok := samt.Val.(ssa.Instruction); ok && amtV.Parent() != nil {
+		ws := writesThroughRoot(p, amtV.Parent(), samt.Val, 0, "", map[string]bool{})
+		if len(ws) == 0 {
+			r.OK(kp("ORIGIN", FuncName(bfn)+"#amount-not-modified"), "the spendable coins read are handed to the bank unmodified (no write into the slice in between)", p.Pos(send.Pos()), "no definite write into the amount's memory (call depth ≤ 3)")
+		} else {
+			w0 := ws[0]
+			r.Fail(kp("ORIGIN", FuncName(bfn)+"#amount-not-modified"), "the spendable coins read are handed to the bank unmodified (no write into the slice in between)", p.Pos(w0.Instr.Pos()),
+				fmt.Sprintf("the amount read from the bank is modified in place before it is sent: %s in %s (reached via %s) — the send then moves something else than what is spendable (duplicated or dropped denominations make bank reject the whole sweep, and the end-blocker only logs it)", w0.How, FuncName(w0.Fn), w0.Chain))
+		}
+	}
 	// the send is skipped only when there is nothing to send (or the address handed in does not parse): every other condition
 	// on the way to the send — a bank switch consulted first, a threshold, a height — leaves spendable coins at the address
 	{
@@ -538,6 +550,7 @@ func checkC07(p *Prog, r *Report) {
 	// address before the first burn creates it (bank refuses transfers to blocked addresses, feegrant/vesting refuse to create accounts
 	// there). Otherwise auth's GetModuleAccount panics ("account is not a module account") inside the burn and every block halts.
 	checkBurnAccountBlocked(p, r, kp, modC)
+	checkModuleExtensionInterfaces(p, r, "C07", []string{"x/burn"})
 	r.Check(has(w.Manager, Rel("x/burn")), kp("WIRE", "manager∋burn"), "the burn module is registered in the module manager", p.Pos(w.ManagerPos), "present", "burn.NewAppModule is not passed to module.NewManager")
 	// keeper built from the bank keeper
 	initK := p.Method(Rel("app/keepers"), "AppKeepersWithKey", "InitKeyAndKeepers")
